@@ -33,7 +33,7 @@ impl Config {
         n_columns_interaction: Felt,
     ) -> (r: Result<(), Error>)
         ensures
-            r.is_ok() <==> trace_ok(self, log_eval_domain_size@, n_verifier_friendly_commitment_layers@, n_columns_original@, n_columns_interaction@), // [C01,C02,C11:trace-config-ok-iff-oracle]
+            r.is_ok() <==> trace_ok(self, log_eval_domain_size@, n_verifier_friendly_commitment_layers@, n_columns_original@, n_columns_interaction@), // [C01,C02,C11,C18:trace-config-ok-iff-oracle]
     {
         if self.original.n_columns < Felt::ONE || self.original.n_columns > MAX_N_COLUMNS {
             return Err(Error::OutOfBounds { min: Felt::ONE, max: MAX_N_COLUMNS });
